@@ -28,8 +28,19 @@ FLOORS = {"nontrivial": 0.25, "nonms": 0.10, "bigendian": 0.05, "cplxint": 0.05,
 
 def budget(tier):
     if tier == "quick":
-        return {"examples": 140, "shards": 1}
-    return {"examples": 400, "shards": 16}
+        return {"examples": 140, "shards": 1, "examples2": 150}
+    return {"examples": 400, "shards": 16, "examples2": 100}
+
+
+# second stage: the same clauses (every written sample returned at its index, nothing unwritten returned, contiguous data
+# as one block) over recordings made in several sessions / top-level directories
+SESSION_KEEP = ("union-read-missing-sample", "union-read-wrong-value", "union-read-unwritten-sample", "union-blocks",
+                "union-read-vs-blocks", "union-read-vector", "union-read-exception")
+
+
+def strategy2(tier):
+    from checks import c11
+    return c11.session_strategy(tier)
 
 
 @st.composite
@@ -136,6 +147,9 @@ def execute(case, top):
 
 
 def run_case(case):
+    if case.get("kind") == "sessions":
+        from checks import c11
+        return c11.run_sessions(case, SESSION_KEEP)
     res = Result()
     cfg = case["cfg"]
     m = build_model(case)
@@ -211,6 +225,10 @@ def classify(case, m, res):
 
 
 def shrink_candidates(case):
+    if case.get("kind") == "sessions":
+        from checks import c11
+        yield from c11.session_shrink(case)
+        return
     ops = case["ops"]
     # fewer reads
     for i in range(len(case["reads"])):
